@@ -133,6 +133,9 @@ func init() {
 		c.Fact("oauth.Authorize.calls", callOrder(c, c.Func("auth", "AuthorizationCodeHandler", "Authorize"),
 			"ParseWWWAuthenticate", "errorFromChallenges", "getProtectedResourceMetadata", "GetAuthServerMetadata", "handleRegistration",
 			"getAuthorizationCode", "validateIssuerResponse", "exchangeAuthorizationCode", "updateGrantedScopes"))
+		c.Fact("oauth.Authorize.checks", checkSeq(c, c.Func("auth", "AuthorizationCodeHandler", "Authorize")))
+		c.Fact("oauth.exchangeAuthorizationCode.checks", checkSeq(c, c.Func("auth", "AuthorizationCodeHandler", "exchangeAuthorizationCode")))
+		c.Fact("oauth.updateGrantedScopes.checks", checkSeq(c, c.Func("auth", "AuthorizationCodeHandler", "updateGrantedScopes")))
 		c.Fact("oauth.GetProtectedResourceMetadata.checks", checkSeq(c, c.Func("oauthex", "", "GetProtectedResourceMetadata")))
 		c.Fact("oauth.GetAuthServerMeta.checks", checkSeq(c, c.Func("oauthex", "", "GetAuthServerMeta")))
 		c.Fact("oauth.getProtectedResourceMetadata.checks", checkSeq(c, c.Func("auth", "AuthorizationCodeHandler", "getProtectedResourceMetadata")))
